@@ -220,14 +220,18 @@ def r193(facts, res):
     whether the column counter is incremented.  It must be bisimilar to the specification `increment on every character except
     an LF that immediately follows a CR` on all inputs in which LF (the line terminator) can only be the last character."""
     R = 'R19.3'
-    bs = [b for b in facts.lib_bodies(['cfgrammar']) if b.path.startswith(MOD + 'NewlineCache::byte_to_line_num_and_col_num') and b.kind == 'closure']
-    bs = [b for b in bs if b.loops()]
-    if len(bs) != 1:
-        res.lost(R, 'the character loop of byte_to_line_num_and_col_num was not found (%d candidate closures with a loop)' % len(bs))
+    # the loop over the characters of the line: in the function itself or in a closure of it (`.map(|line_num| { .. })`)
+    def char_loops(b):
+        lp = b.loops()
+        return [h for h in lp if any(('CharIndices' in (callee_of(t).get('self_ty') or '') or 'str::iter::Chars' in (callee_of(t).get('self_ty') or ''))
+                                     for _bb, t in b.calls_named('next', lp[h]))]
+    bs = [b for b in facts.lib_bodies(['cfgrammar']) if b.path.startswith(MOD + 'NewlineCache::byte_to_line_num_and_col_num') and char_loops(b)]
+    if len(bs) != 1 or len(char_loops(bs[0])) != 1:
+        res.lost(R, 'the character loop of byte_to_line_num_and_col_num was not found (%d candidate bodies with a loop over characters)' % len(bs))
         return
     b = bs[0]
     loops = b.loops()
-    h = max(loops, key=lambda x: len(loops[x]))
+    h = char_loops(b)[0]
     carried = loop_assigned(b, h)
     w = Walker(b, facts, max_paths=2048)
     ps = [p for p in w.run(h, stop=lambda x: x not in loops[h]) if p.end[0] in ('loop', 'stop', 'return')]
